@@ -27,10 +27,20 @@ META = {
         "width) for the rule models of SignlessIntegerBinaryOperationConstantProp, ...ZeroOrUnitRight and fold() instantiated "
         "with the regenerated kernels, cmpi on equal operands, the three select patterns, select-of-cmpf to maximumf/minimumf (select_cmpf_to_minmax_sound: exact unless both operands are zeros, where only the sign of zero may differ; counterexample for nnan without nsz), the float constant fold incl. the "
         "division special-casing under stated IEEE laws, reassociation under the fastmath<reassoc> licence, and sequences of "
-        "sound rules; XdslProofs.C14CSE proves cse_preserves for the CSE walk on straight-line SSA code of pure operations. The "
+        "sound rules; XdslProofs.C14CSE proves cse_preserves for the CSE walk on straight-line SSA code of pure operations, and "
+        "cse_hashed_preserves / cse_opinfo_preserves for the walk as it runs -- the known operations kept in a Python dict keyed by "
+        "OperationInfo: for EVERY hash function (collisions included) the dict lookup finds what the collision-free table finds, "
+        "provided __eq__ compares name, attribute and property dictionaries and result types in full (findH_eq_find); "
+        "cse_keys_only_counterexample shows the proviso is needed (comparing only the attribute names merges constant -1 with "
+        "constant -2 under any hash on which the two values collide). The "
         "rule and CSE models are tied to /repo by applying each real pattern to one-operation snippets (every integer op x widths "
         "x operand shapes x boundary constants), float folds on bit-pattern corpora (also against an exact-rational IEEE oracle), "
-        "and real cse on generated straight-line blocks."
+        "and real cse on generated straight-line blocks built around near-duplicates: for an operation of the block a twin that "
+        "differs in exactly one component of its OperationInfo (attribute value, predicate, name, operand, operand order, result "
+        "type; or none), attribute values being chosen with COLLIDING Python hashes wherever the type has such values "
+        "(hash(-1)==hash(-2), v and v+k*(2**61-1)); every block is also run before/after the real pass on the reference semantics "
+        "(every operation's result is returned), as are twin scf.if operations whose bodies are equal or differ in one constant / "
+        "operation. The program stream of (A) draws integer constants the same way (twins of earlier constants of the program)."
     ),
     "technique": "translation validation on a Lean reference semantics + Python->Lean translation of the fold kernels + Lean 4 proofs of every rewrite rule + differential correspondence of rule/CSE models with the real patterns",
     "level_note": (
@@ -44,8 +54,10 @@ META = {
         "pairs of {+-0,+-1,+-inf,NaN,+-denormal}); there a difference after canonicalize counts as licensed only when an operand is a NaN "
         "(nnan) or both results are zeros differing in sign (nsz). Not generated: cf.switch, scf.while, vector/tensor types, "
         "minnumf/maxnumf, float<->int casts. The rule models cover one operation with constant / "
-        "non-constant operands; the greedy driver, region_dce and Folder plumbing are exercised by (A) only. The CSE theorem "
-        "covers straight-line pure single-result operations; region scoping and read-only memory operations are exercised by (A) "
+        "non-constant operands; the greedy driver, region_dce and Folder plumbing are exercised by (A) only. The CSE theorems "
+        "cover straight-line pure single-result operations and the hash-table lookup; which operations are candidates at all is "
+        "taken from the real is_side_effect_free (arith.extsi is not declared Pure and is never merged); region scoping, the region "
+        "comparison is_structurally_equivalent and read-only memory operations are exercised by runs on the reference semantics "
         "only. Known findings (listed in known_findings.json) are inherited from the interpreter (C15)."
     ),
     "rule": (
@@ -54,8 +66,9 @@ META = {
         "boundary constants (non-trivial = returns True), normalized_value on in/out-of-range values (non-trivial = value "
         "changed); rules: every SignlessIntegerBinaryOperation x widths {1,2,3,4,8,16,32,64,index} x operand shapes (var/var, "
         "var/const, const/var, const/const) x boundary constants (non-trivial = the pattern fired); float folds: op x type x "
-        "corpus^2 (non-trivial = zero/inf/NaN operand or result); cse: generated straight-line blocks (non-trivial = an operation "
-        "was eliminated). Inputs on which the reference semantics gives ub are generated but excluded from the oracle."
+        "corpus^2 (non-trivial = zero/inf/NaN operand or result); cse: generated straight-line blocks of near-duplicate operations (non-trivial = an operation "
+        "was eliminated, or two different operations of the block have the same observed OperationInfo hash) and twin scf.if "
+        "(non-trivial = merged). Inputs on which the reference semantics gives ub are generated but excluded from the oracle."
     ),
     "trusted_base": [
         "reference semantics lean/XdslModel/Sem.lean (BitVec + native IEEE floats) and serialiser harness/vp/miniir.py",
@@ -73,7 +86,7 @@ def timed(ctx: core.Ctx, name: str, f: Any) -> None:
 
 
 def run(ctx: core.Ctx) -> None:
-    from props import c14_rules, c14_selcmpf, c14_tv
+    from props import c14_cse, c14_rules, c14_selcmpf, c14_tv
     from translate.generate import generate
 
     rep = generate(core.REPO)
@@ -90,7 +103,7 @@ def run(ctx: core.Ctx) -> None:
     timed(ctx, "float_folds", c14_rules.run_float_folds)
     timed(ctx, "reassoc", c14_rules.run_reassoc)
     timed(ctx, "select_cmpf", c14_selcmpf.run)
-    timed(ctx, "cse_blocks", c14_rules.run_cse)
+    timed(ctx, "cse_blocks", c14_cse.run)
     n = 110 if ctx.tier == "quick" else 6000
     t = time.time()
     c14_tv.run_stream(ctx, n, n // 4, reserve_s=12 if ctx.tier == "quick" else 40)
